@@ -96,6 +96,28 @@ def run(ctx, res):
                         w = metam.first_diff(out2[t].to_numpy(), base_out[t].to_numpy(), list(df["p_id"]))
                         res.add_violation(f"input-unit:{c}->{other}:{t}", f"supplying {other} instead of {c} on {impl.iso(o)} changes {t}: {w}",
                                           dict(kind="input-unit", date=impl.iso(o), given=other, instead_of=c, target=t, witness=w), True)
+            # (b2) the same with an INTEGER-typed column in the other unit (whole euros per year, not divisible by 12)
+            import numpy as np
+            for c, u2 in [("bruttolohn_m", "y"), ("bruttokaltmiete_m_hh", "y"), ("eink_selbst_m", "y")]:
+                m = PAT.fullmatch(c)
+                if c not in df.columns or m is None:
+                    continue
+                other = f"{m.group('base')}{u2}{m.group('agg') or ''}"
+                whole = np.round(df[c].to_numpy() * 12.0).astype("int64") + (np.arange(len(df)) % 7 + 1)
+                d_ref = df.copy()
+                d_ref[c] = whole / 12.0
+                d_int = df.drop(columns=[c]).copy()
+                d_int[other] = whole
+                ref_out, _ = engine.simulate(d_ref, o, targets=tg)
+                out2, _ = engine.simulate(d_int, o, targets=tg)
+                stats["other_unit_inputs"] += 1
+                stats["integer_typed_inputs"] = stats.get("integer_typed_inputs", 0) + 1
+                for t in tg:
+                    if not metam.col_close(out2[t].to_numpy(), ref_out[t].to_numpy(), tol=1e-7):
+                        w = metam.first_diff(out2[t].to_numpy(), ref_out[t].to_numpy(), list(df["p_id"]))
+                        res.add_violation(f"input-unit-int:{c}->{other}:{t}", f"supplying the int64 column {other} instead of {c} = {other}/12 on {impl.iso(o)} changes {t}: {w}",
+                                          dict(kind="input-unit-int", date=impl.iso(o), given=other, instead_of=c, target=t, witness=w), True)
+                        break
         except Exception as ex:  # noqa: BLE001
             stats["skipped"][f"{impl.iso(o)}:inputs"] = f"{type(ex).__name__}: {str(ex)[:120]}"
         # (c) conversion commutes with group summation
